@@ -223,6 +223,30 @@ class SLock:
         self.release()
 
 
+class SRLock(SLock):
+    """Re-entrant variant (in case the code under test switches to threading.RLock)."""
+
+    def __init__(self, *a, **k):
+        super().__init__()
+        self.depth = 0
+
+    def acquire(self, blocking=True, timeout=-1):
+        s = cur()
+        t = s.me() if s else None
+        if t is not None and self.owner is t:
+            self.depth += 1
+            return True
+        r = super().acquire(blocking, timeout)
+        self.depth = 1
+        return r
+
+    def release(self):
+        self.depth -= 1
+        if self.depth <= 0:
+            self.depth = 0
+            super().release()
+
+
 class SCondition:
     def __init__(self, lock=None, *a, **k):
         self.lock = lock if lock is not None else SLock()
@@ -287,9 +311,9 @@ def shimmed_primitives(mp_mode=False):
     """While active, threading.Lock/Condition (and the multiprocessing equivalents) construct shims.
     Only used around the store constructor, on the (single) harness thread."""
     saved = (threading.Lock, threading.Condition, multiprocessing.Lock, multiprocessing.Condition,
-             multiprocessing.Manager, os.environ.get("USE_MULTIPROCESSING"))
-    threading.Lock, threading.Condition = SLock, SCondition
-    multiprocessing.Lock, multiprocessing.Condition = SLock, SCondition
+             multiprocessing.Manager, os.environ.get("USE_MULTIPROCESSING"), threading.RLock, multiprocessing.RLock)
+    threading.Lock, threading.Condition, threading.RLock = SLock, SCondition, SRLock
+    multiprocessing.Lock, multiprocessing.Condition, multiprocessing.RLock = SLock, SCondition, SRLock
     multiprocessing.Manager = lambda *a, **k: _SManager()
     if mp_mode:
         os.environ["USE_MULTIPROCESSING"] = "True"
@@ -300,6 +324,7 @@ def shimmed_primitives(mp_mode=False):
     finally:
         (threading.Lock, threading.Condition, multiprocessing.Lock, multiprocessing.Condition,
          multiprocessing.Manager) = saved[:5]
+        threading.RLock, multiprocessing.RLock = saved[6], saved[7]
         if saved[5] is None:
             os.environ.pop("USE_MULTIPROCESSING", None)
         else:
